@@ -33,6 +33,11 @@ Readings adopted:
     list for frozenset, pairs for dict with dict() semantics) are not violations.
   * an instance (or serialized bytes) of a different dataclass passed for a dataclass parameter is an ill-typed call; that
     deserialize_from_batch accepts it when every missing field has a default (schema evolution) is tallied, not flagged.
+  * annotation spellings are a generated dimension (X, X | None, Optional[X], Annotated[X, m], Annotated[X, m] | None,
+    Optional[Annotated[X, ArrowType(..)]], Annotated[X | None, m], Annotated inside containers).  The framework strips Optional
+    first and Annotated second everywhere, so Annotated[X | None, m] is not recognised as optional on the unchanged tree (None
+    refused, Enum/dict/frozenset arrive unconverted): judged a genuine defect of this property (optionals are listed, the annotation
+    is accepted at class-definition time, a well-typed value is silently changed), key optional-marker-inside-annotated-not-recognised.
   * sets (`frozenset`) only: `set[T]` is refused by _infer_arrow_type at class-definition time.
   * equality of floats is bit equality (NaN payload, signed zero).
 """
@@ -72,16 +77,19 @@ HEADER = "From Coq Require Import List NArith ZArith Bool.\nFrom VGI Require Imp
 
 # ---------------------------------------------------------------------------------------------- python mirrors
 def wire_plain(t: tuple) -> bool:
-    if t[0] in ("opt", "list"):
+    if t[0] in ("opt", "list", "ann"):
         return wire_plain(t[1])
     return t[0] in ("int", "float", "str", "bytes", "bool", "date", "ts", "time", "dur", "dec")
 
 
 def supported(t: tuple) -> bool:
+    """Mirror of M_Values.supported: X, X | None, Annotated[X, m], Annotated[X, m] | None -- not Annotated[X | None, m]."""
     if t[0] == "opt":
         t = t[1]
-        if t[0] == "opt":
-            return False
+    if t[0] == "ann":
+        t = t[1]
+    if t[0] in ("opt", "ann"):
+        return False
     if t[0] in ("enum", "data"):
         return True
     if t[0] == "set":
@@ -94,7 +102,7 @@ def supported(t: tuple) -> bool:
 def shape(t: tuple) -> str:
     from harness.c02_echo import kind_of
 
-    if t[0] in ("opt", "list", "set"):
+    if t[0] in ("opt", "list", "set", "ann"):
         return f"{t[0]}-{shape(t[1])}"
     if t[0] == "map":
         return f"map-{shape(t[1])}-{shape(t[2])}"
@@ -229,6 +237,26 @@ def _hashable(x: Any) -> bool:
         return False
 
 
+def spelling_types() -> list[tuple]:
+    """Annotation SPELLINGS as a dimension: every way of writing (optional) X with or without Annotated metadata / an explicit
+    ArrowType, crossed with the base types that need a conversion after as_py() (dict, frozenset, Enum, dataclass) + controls."""
+    i64, i32, s_ = ("int", True, 64), ("int", True, 32), ("str",)
+    bases = [("map", s_, i64), ("set", i64), ("enum", 0), ("enum", 2), ("data", 0), ("data", 4), i64, s_, ("list", i64)]
+    arrowable = [("map", s_, i32), ("set", ("int", False, 16)), ("list", ("float", 32)), i64, ("map", s_, ("opt", i64))]
+    out: list[tuple] = []
+    for x in bases:
+        out += [("opt", x, "bar"), ("opt", x, "typing"), ("ann", x), ("opt", ("ann", x), "bar"), ("opt", ("ann", x), "typing"), ("ann", ("opt", x, "bar"))]
+    for x in arrowable:
+        out += [("ann", x, "arrow"), ("opt", ("ann", x, "arrow"), "typing"), ("opt", ("ann", x, "arrow"), "bar")]
+    out += [("list", ("ann", i64)), ("list", ("ann", ("opt", i64, "bar"))), ("map", s_, ("ann", i64)), ("set", ("ann", s_)), ("opt", ("list", ("ann", ("opt", s_))), "typing")]
+    return out
+
+
+def opt_inside_ann(t: tuple) -> bool:
+    """Annotated[X | None, meta] at the top of a parameter / result annotation, X otherwise supported."""
+    return t[0] == "ann" and t[1][0] == "opt" and supported(("opt", t[1][1]))
+
+
 def type_universe(ctx: Any) -> list[tuple]:
     import harness.c02_echo as H
 
@@ -252,6 +280,7 @@ def type_universe(ctx: Any) -> list[tuple]:
     for _ in range(12 if ctx.tier == "quick" else 120):
         a, b = rng.choice(plain), rng.choice(plain)
         comp.append(rng.choice([("opt", a), ("list", a), ("set", a), ("map", a, b), ("list", ("opt", a)), ("opt", ("list", a)), ("list", ("list", a)), ("opt", ("map", a, b)), ("map", a, ("list", b))]))
+    always += spelling_types()
     if ctx.tier == "quick":
         comp = rng.sample(comp, min(len(comp), 46))
         outside = rng.sample(outside, 6)
@@ -291,6 +320,7 @@ def run(ctx: Any) -> None:
     rng = ctx.rng
     quick = ctx.tier == "quick"
     types = type_universe(ctx)
+    spelled = set(spelling_types())
     ctx.rule = ("cases = annotation (all scalars at every Arrow width, temporal, decimal, enum, dataclass + generated Optional/list/"
                 "frozenset/dict combinations to depth 3 + annotations outside the statement) x value (boundary-biased well-typed values, "
                 "targeted ill-typed / unrepresentable values, a shared pool) x {argument passed, default passed, argument omitted} x "
@@ -305,9 +335,13 @@ def run(ctx: Any) -> None:
         except Exception as e:  # noqa: BLE001
             ctx.violation("annotation-refused-" + shape(t), f"_infer_arrow_type refuses {H.ann_src(t)}: {e}", {"annotation": H.ann_src(t)})
             continue
-        vals = [H.gen_value(t, rng) for _ in range(3 if quick else 10)] + targeted_ill(t, rng) + rng.sample(H.ILL_POOL, 5 if quick else 25)
+        n = H.norm(t)
+        if t in spelled:
+            vals = [H.gen_value(n, rng) for _ in range(2)] + targeted_ill(n, rng)[:4]
+        else:
+            vals = [H.gen_value(n, rng) for _ in range(3 if quick else 10)] + targeted_ill(n, rng) + rng.sample(H.ILL_POOL, 5 if quick else 25)
         for v in vals:
-            if not H.encodable(v) or unsafe(t, v):
+            if not H.encodable(v) or unsafe(n, v):
                 continue
             try:
                 r = pa.array([v], type=at)[0].as_py()
@@ -351,20 +385,29 @@ def run(ctx: Any) -> None:
         if o.where == "hang":
             ctx.violation("call-hangs-" + shape(t), "the call never returned", repl)
             return
-        sup = supported(t)
+        raw, t = t, H.norm(t)  # values are judged against the annotation's meaning, whatever its spelling
+        if opt_inside_ann(raw):
+            # Annotated[X | None, meta]: per the property an optional X.  The unchanged framework does not see the marker inside
+            # the wrapper (None refused; Enum / dict / frozenset values arrive unconverted; dataclasses refused): R_C02.v lemma 7.
+            bad = well and (not o.ok or not (o.seen and H.exact_eq(v, o.seen[0])) or not H.exact_eq(v, o.result))
+            if bad:
+                ctx.violation("optional-marker-inside-annotated-not-recognised",
+                              "Annotated[X | None, meta] is not treated as an optional X: " + ("refused" if not o.ok else "value arrives unconverted"), repl)
+            return
+        sup = supported(raw)
         if not sup:
-            ctx.tally("outside-statement", f"{shape(t)}:{'ok' if o.ok else 'reject'}:{'same' if o.ok and H.same_value(v, o.result, t) else 'changed' if o.ok else '-'}")
+            ctx.tally("outside-statement", f"{shape(raw)}:{'ok' if o.ok else 'reject'}:{'same' if o.ok and H.same_value(v, o.result, t) else 'changed' if o.ok else '-'}")
             return
         if well:
             if not o.ok:
-                ctx.violation("well-typed-value-rejected-" + shape(t), f"a value of the declared type is refused ({o.where}: {o.err})", repl)
+                ctx.violation("well-typed-value-rejected-" + shape(raw), f"a value of the declared type is refused ({o.where}: {o.err})", repl)
             else:
                 if not (o.seen and H.exact_eq(v, o.seen[0])):
                     sfx = ("dataclass-none-field-defaulted" if o.seen and H.none_field_defaulted(v, o.seen[0])
-                           else "dataclass-enum" if o.seen and H.enum_field_differs(v, o.seen[0]) else shape(t))
+                           else "dataclass-enum" if o.seen and H.enum_field_differs(v, o.seen[0]) else shape(raw))
                     ctx.violation("kwargs-differ-" + sfx, "the implementation received a different value", repl)
                 if not H.exact_eq(v, o.result):
-                    sfx = "dataclass-none-field-defaulted" if H.none_field_defaulted(v, o.result) else "dataclass-enum" if H.enum_field_differs(v, o.result) else shape(t)
+                    sfx = "dataclass-none-field-defaulted" if H.none_field_defaulted(v, o.result) else "dataclass-enum" if H.enum_field_differs(v, o.result) else shape(raw)
                     ctx.violation("echo-differs-" + sfx, "the echoed value differs from the one passed", repl)
             return
         # not a value of the declared type (or not representable by it): rejected, or the same value arrives
@@ -378,7 +421,7 @@ def run(ctx: Any) -> None:
             return
         for got, what in ([(o.seen[0], "kwargs")] if o.seen else []) + ([(o.result, "result")] if o.ok else []):
             if not H.same_value(v, got, t):
-                key = lossy_class(t, v) or f"silent-change-{shape(t)}-{type(v).__name__}"
+                key = lossy_class(t, v) or f"silent-change-{shape(raw)}-{type(v).__name__}"
                 ctx.violation(key, f"a value the declared type cannot represent was accepted and changed ({what}: {got!r:.120})", repl)
                 break
 
@@ -388,9 +431,16 @@ def run(ctx: Any) -> None:
         sigs = []
         plans = []
         for t in batch:
-            well_vals = H.fixed_wells(t) + [H.gen_value(t, rng) for _ in range(4 if quick else 14)]
-            ill_vals = targeted_ill(t, rng) + rng.sample(H.ILL_POOL, 3 if quick else 20)
-            default = H.gen_value(t, rng)
+            n = H.norm(t)
+            if t in spelled:  # the spelling dimension: a non-None value (always), None where the annotation is optional, few ill-typed ones
+                base = n[1] if n[0] == "opt" else n
+                well_vals = H.fixed_wells(base)[:2] + [H.gen_value(base, rng)] + ([None] if n[0] == "opt" else [])
+                ill_vals = targeted_ill(n, rng)[:3]
+                default = H.gen_value(base, rng)
+            else:
+                well_vals = H.fixed_wells(n) + [H.gen_value(n, rng) for _ in range(4 if quick else 14)]
+                ill_vals = targeted_ill(n, rng) + rng.sample(H.ILL_POOL, 3 if quick else 20)
+                default = H.gen_value(n, rng)
             sigs.append((t, False, None))
             sigs.append((t, True, default))
             plans.append((t, well_vals, ill_vals, default))
@@ -411,9 +461,10 @@ def run(ctx: Any) -> None:
                     calls.append((f"m{2 * j}", {"v": v}, v, False, "passed"))
                 calls.append((f"m{2 * j + 1}", {"v": default}, default, True, "default-passed"))
                 calls.append((f"m{2 * j + 1}", {}, default, True, "omitted"))
-                calls.append((f"m{2 * j}", {}, None, t[0] == "opt", "omitted-no-default"))
+                n = H.norm(t)
+                calls.append((f"m{2 * j}", {}, None, n[0] == "opt", "omitted-no-default"))
                 for name, kwargs, v, well, mode in calls:
-                    if unsafe(t, v):
+                    if unsafe(n, v):
                         continue
                     o_s = H.call_socket(server, methods[name], dict(kwargs))
                     o_h = H.call_proxy(hproxy, name, dict(kwargs))
@@ -428,9 +479,9 @@ def run(ctx: Any) -> None:
                     if not same:
                         ctx.violation("transports-differ-" + shape(t), "socket family and HTTP treat the same call differently",
                                       {"annotation": H.ann_src(t), "value": repr(v)[:300], "mode": mode, "socket": o_s.brief(), "http": o_h.brief()})
-                    if not H.encodable(v) or model_skip(t, v):
+                    if not H.encodable(v) or model_skip(n, v):
                         continue
-                    if not opt_first and t[0] == "opt" and t[1][0] == "data":
+                    if not opt_first and n[0] == "opt" and n[1][0] == "data":
                         continue  # unrepaired _build_result_schema: a struct result column, unmodelled inside (even None may fail IPC validation)
                     if mode in ("passed", "default-passed"):
                         for which in (2, 1):
